@@ -2,7 +2,7 @@
 // [ ] sort by time is only per lifecycle. could interleave lifecycles from different ecus as well (eg bugs-41250)
 
 use adlt::{
-    dlt::{DltChar4, DltMessageIndexType, DLT_MAX_STORAGE_MSG_SIZE},
+    dlt::{DltChar4, DltMessageIndexType, DLT_MIN_PARSER_LOOKAHEAD_SIZE},
     lifecycle::LifecycleId,
     plugins::{
         factory::get_plugin,
@@ -2221,7 +2221,7 @@ fn create_parser_thread(
                                 let buf_reader = LowMarkBufReader::new(
                                     fi,
                                     BUFREADER_CAPACITY,
-                                    DLT_MAX_STORAGE_MSG_SIZE,
+                                    DLT_MIN_PARSER_LOOKAHEAD_SIZE,
                                 );
                                 get_dlt_message_iterator(
                                     file_ext,
